@@ -997,6 +997,29 @@ impl<'a> VisitMut for Norm<'a> {
                 }
             }
         }
+        // N21: `match S { [p0, p1, rest @ ..] => A, [] => B, .. }` (slice patterns, which Verus does not support)  ==>
+        // `{ let __s = S; if LEN-AND-LITERAL-TEST { let p_i = &__s[i]; let rest = &__s[k..]; A } else if .. }`
+        // (definition of slice-pattern matching under default binding modes: arms in order, an element binding is a
+        // reference to that element, `rest @ ..` the sub-slice between the fixed elements; the last arm of a match that
+        // rustc accepted as exhaustive needs no test)
+        if let Expr::Match(m) = e {
+            if let Some(new) = slice_match_as_if_chain(m) {
+                *e = new;
+                self.stats.bump("N21.slice_pattern_match_as_if_chain");
+            }
+        }
+        // N22: `match S[i] { P if G => .., .. }`  ==>  `{ let __m = S[i]; match __m { P if G => .., .. } }`
+        // (an indexed element of a Copy type read once, as the match does; Verus 0.2026.09.13 panics in ast_to_sst on a guarded
+        // match whose scrutinee is an index expression)
+        if let Expr::Match(m) = e {
+            if matches!(&*m.expr, Expr::Index(_)) && m.arms.iter().any(|a| a.guard.is_some()) {
+                let sc = (*m.expr).clone();
+                *m.expr = parse_quote!(__m);
+                let inner = Expr::Match(m.clone());
+                *e = parse_quote!({ let __m = #sc; #inner });
+                self.stats.bump("N22.guarded_match_on_index_via_local");
+            }
+        }
         // N18b (directive option `forslice`): `for P in E.iter() B`  ==>  `{ let __it = &E; let mut __i: usize = 0; while __i < __it.len() { let P = &__it[__i]; __i += 1; B } }`
         // (definition of iterating a slice/array by reference)
         if self.forslice {
@@ -1173,6 +1196,116 @@ impl<'a> VisitMut for Norm<'a> {
 }
 
 /// Returns the number of loops found (pre-order numbering).
+/// N21 (see `visit_expr_mut`). `None` when the match is not a plain slice-pattern match (guards, nested patterns other than
+/// literals / ranges / bindings / `_`): the match is then left as it is.
+fn slice_match_as_if_chain(m: &syn::ExprMatch) -> Option<Expr> {
+    use syn::Pat;
+    if !m.arms.iter().any(|a| matches!(a.pat, Pat::Slice(_))) {
+        return None;
+    }
+    let scrut = &m.expr;
+    // (condition, bindings, body); condition None = catch-all
+    let mut parts: Vec<(Option<Expr>, Vec<syn::Stmt>, Expr)> = Vec::new();
+    for arm in &m.arms {
+        if arm.guard.is_some() {
+            return None;
+        }
+        let body = (*arm.body).clone();
+        match &arm.pat {
+            Pat::Wild(_) => parts.push((None, vec![], body)),
+            Pat::Ident(pi) if pi.subpat.is_none() && pi.by_ref.is_none() => {
+                let id = &pi.ident;
+                parts.push((None, vec![parse_quote!(let #id = __s;)], body));
+            }
+            Pat::Slice(ps) => {
+                let n = ps.elems.len();
+                let is_rest = |p: &Pat| match p {
+                    Pat::Rest(_) => true,
+                    Pat::Ident(pi) => matches!(pi.subpat.as_ref().map(|(_, sp)| &**sp), Some(Pat::Rest(_))),
+                    _ => false,
+                };
+                let rest_pos: Vec<usize> = ps.elems.iter().enumerate().filter(|(_, p)| is_rest(p)).map(|(i, _)| i).collect();
+                if rest_pos.len() > 1 {
+                    return None;
+                }
+                let (nb, na) = match rest_pos.first() {
+                    Some(&r) => (r, n - r - 1),
+                    None => (n, 0),
+                };
+                let fixed = nb + na;
+                let mut cond: Expr = if rest_pos.is_empty() { parse_quote!(__s.len() == #fixed) } else { parse_quote!(__s.len() >= #fixed) };
+                let mut lets: Vec<syn::Stmt> = Vec::new();
+                for (i, p) in ps.elems.iter().enumerate() {
+                    if is_rest(p) {
+                        if let Pat::Ident(pi) = p {
+                            let id = &pi.ident;
+                            if na == 0 {
+                                lets.push(parse_quote!(let #id = &__s[#nb..];));
+                            } else {
+                                lets.push(parse_quote!(let #id = &__s[#nb..__s.len() - #na];));
+                            }
+                        }
+                        continue;
+                    }
+                    let at: Expr = if i < nb {
+                        parse_quote!(__s[#i])
+                    } else {
+                        let back = n - i;
+                        parse_quote!(__s[__s.len() - #back])
+                    };
+                    match p {
+                        Pat::Wild(_) => {}
+                        Pat::Ident(pi) if pi.subpat.is_none() && pi.by_ref.is_none() && pi.mutability.is_none() => {
+                            let id = &pi.ident;
+                            lets.push(parse_quote!(let #id = &#at;));
+                        }
+                        Pat::Lit(l) => {
+                            cond = parse_quote!(#cond && #at == #l);
+                        }
+                        Pat::Range(r) => {
+                            let (lo, hi) = (r.start.as_ref()?, r.end.as_ref()?);
+                            match r.limits {
+                                syn::RangeLimits::Closed(_) => cond = parse_quote!(#cond && #lo <= #at && #at <= #hi),
+                                syn::RangeLimits::HalfOpen(_) => cond = parse_quote!(#cond && #lo <= #at && #at < #hi),
+                            }
+                        }
+                        Pat::Or(o) => {
+                            let mut alts: Vec<Expr> = Vec::new();
+                            for c in &o.cases {
+                                if let Pat::Lit(l) = c {
+                                    alts.push(parse_quote!(#at == #l));
+                                } else {
+                                    return None;
+                                }
+                            }
+                            cond = parse_quote!(#cond && (#(#alts)||*));
+                        }
+                        _ => return None,
+                    }
+                }
+                parts.push((Some(cond), lets, body));
+            }
+            _ => return None,
+        }
+    }
+    // the last arm of an exhaustive match needs no test
+    let mut chain: Option<Expr> = None;
+    for (k, (cond, lets, body)) in parts.iter().enumerate().rev() {
+        let blk: Expr = parse_quote!({ #(#lets)* #body });
+        chain = Some(match (cond, chain.take()) {
+            (None, _) => blk,
+            (Some(_), None) if k + 1 == parts.len() => blk,
+            (Some(c), Some(rest)) => match rest {
+                Expr::If(_) | Expr::Block(_) => parse_quote!(if #c #blk else #rest),
+                other => parse_quote!(if #c #blk else { #other }),
+            },
+            (Some(_), None) => return None,
+        });
+    }
+    let chain = chain?;
+    Some(parse_quote!({ let __s = #scrut; #chain }))
+}
+
 pub fn normalise(block: &mut syn::Block, opts: &BTreeMap<String, String>, stats: &mut Stats, desc: &str, before: &[String]) -> (usize, Vec<usize>, usize) {
     let deref_idents = opts.get("n3").map(|s| s.split(',').map(|x| x.to_string()).collect()).unwrap_or_default();
     let mut n = Norm { stats, desc, loops: 0, tmp: 0, closure_args: 0, deref_idents, keep_async: false, yieldctx: opts.get("yieldctx").cloned(), opt_map: opts.contains_key("optmap"), dropnote: opts.get("dropnote").cloned(), selfty: opts.get("selfty").cloned(), skip_sort: false, strviews: opts.contains_key("strviews"), forlist: opts.contains_key("forlist"), forslice: opts.contains_key("forslice"), nexton: opts.get("nexton").cloned(), before: before.to_vec(), before_hits: vec![0; before.len()], subst: opts.get("subst").and_then(|v| v.split_once(':').map(|(a, b)| (a.to_string(), b.replace('~', "::")))) };
